@@ -187,7 +187,9 @@ func nodeWithCaseConversion(n *RegexNode) *RegexNode {
 
 	if n.Ch > 0 {
 		ch := n.Ch
-		if isLow, isUp := unicode.IsLower(ch), unicode.IsUpper(ch); isLow || isUp {
+		// cased letters are not all in the categories Ll / Lu: title-case letters (Lt), Roman
+		// numerals (Nl) and circled letters (So) have case partners as well
+		if isLow, isUp := unicode.IsLower(ch), unicode.IsUpper(ch); isLow || isUp || unicode.SimpleFold(ch) != ch {
 			/*var upper, lower rune
 			// it's a capitalizable char
 			if isUp {
